@@ -163,7 +163,11 @@ def runTrace (v : Variant) (cpu : Bool) (ngpus : Nat) (s0 : State) (steps : List
           if matching.isEmpty then
             let ex := match quiet.head? with | some s => showObs s | none => "<no quiescent state>"
             let others := ((all.map showObs).eraseDups.take 6)
-            s!"diverge {k} {cur.length} model={ex} reachable={others}"
+            -- diagnosis: a state with the observed projection exists but was not admitted: which internal actions it still enables
+            let why := match (all.filter (fun s => showObs s == obs)).head? with
+              | some s => " same-projection-but-enabled=" ++ toString (((internalActs cpu ngpus s).filter (fun a => (step v s a).isSome)).map (fun a => toString (repr a)))
+              | none => ""
+            s!"diverge {k} {cur.length} model={ex} reachable={others}{why}"
           else go (k+1) matching rest
       | _ => "bad-op"
   go 0 [s0] steps
